@@ -1,7 +1,7 @@
 SPECIFICATION Spec
 CONSTANTS
   H = {"c1", "c2"}
-  Limit = 0
+  Limit = 1
   PortMayBeBusy = TRUE
   WithStop = TRUE
   WithDrain = TRUE
@@ -9,7 +9,7 @@ CONSTANTS
   FixPublish = TRUE
   FixStats = TRUE
   AtomicAdd = TRUE
-  TakeRegistry = TRUE
+  TakeRegistry = FALSE
   Det = FALSE
 INVARIANTS TypeOK NoStuckStop AfterStopAllReleased LimitRespected ConnStatsConserved GaugeNonNegative
 PROPERTIES StopReturns DrainReturns DrainKeepsEstablished DrainStopsAccepting UnderLimitServed
